@@ -12,7 +12,7 @@ from mc import ir as IR, oracles
 PID = 'C12'
 LEVEL = 'model_checking'
 RULE = ('base grammars: every single-rule FGG over Shapes(3,2,2) with >= 2 edges or >= 2 nodes, a stride of the bounded '
-        'multi-nonterminal family, and twelve recursive templates with two weightings each; presentation dimensions: rule '
+        'multi-nonterminal family, and the recursive templates of mc/ir.py with three or four weightings each; presentation dimensions: rule '
         'order (all permutations), node insertion order of each rule (all), edge insertion order of each rule (all), id '
         'scheme (implicit / ascending / descending / mixed), node- and edge-label renaming (order-reversing bijection), '
         'permutation of each domain\'s values together with the factor axes (all), construction path (API vs JSON); '
@@ -62,7 +62,7 @@ def bases(tier):
             continue      # 13 rules: its presentation space alone would dominate the check; solver-specific, covered by C02/C03/C11
         dom = 2 if any(T[name]['term'][t] for t in T[name]['term']) else 1
         ws = list(IR.template_weightings(T[name], [Fraction(1, 4), Fraction(1, 2), Fraction(1, 8)], 3, dom))
-        picks = [ws[5 % len(ws)], ws[-2]] + ([ws[1]] if tier == 'thorough' else [])
+        picks = [ws[5 % len(ws)], ws[-2], ws[21 % len(ws)]] + ([ws[1]] if tier == 'thorough' else [])
         zs = list(IR.template_weightings(T[name], [Fraction(0), Fraction(1, 4)], 3, dom))
         picks.append(zs[len(zs) // 2])
         for irx, w in picks:
